@@ -1,0 +1,11 @@
+//go:build verif
+
+package trafficrouting
+
+// VerifSetGracePeriodSeconds sets the package default grace period and returns the old value
+// (verification harness only).
+func VerifSetGracePeriodSeconds(s int32) int32 {
+	old := defaultGracePeriodSeconds
+	defaultGracePeriodSeconds = s
+	return old
+}
